@@ -16,11 +16,20 @@ Definition ack := (Z * Z)%type.            (* subscription id, sequence number *
 
 Inductive op :=
 | Start                                   (* a publish call takes the acks and sends its request *)
-| RespOk (k : Z) (sub seq : Z)            (* the k-th oldest in-flight request gets a PublishResponse *)
+| RespOk (k : Z) (sub seq : Z) (data : Z)  (* the k-th oldest in-flight request gets a PublishResponse; [data] says
+                                             what its notification message carries (0 nothing, 1 a data change,
+                                             2 a data change and a status change, 3 an undecodable body): the
+                                             sequence number is acknowledged whatever the content *)
 | RespOkBad (k : Z) (sub seq : Z)         (* … a PublishResponse whose header carries a Bad service result:
                                              the server received the request and the response still carries a
                                              sequence number, so the client treats it like any PublishResponse *)
-| RespErr (k : Z).                        (* … fails: timeout, service fault, unexpected response *)
+| RespErr (k : Z)                         (* … fails: timeout, service fault, unexpected response *)
+| StartDown (kind : Z)                    (* a publish call while the transport is down (0 not connected, 1 queue
+                                             closed): the request never reaches the server, the call fails *)
+| SubAdd (sub : Z)                        (* the client creates / deletes / modifies a subscription, or switches *)
+| SubDel (sub : Z)                        (* its publishing mode: none of these touches the acknowledgements    *)
+| SubMod (sub : Z)
+| SubPub (sub : Z).
 
 Record st := {
   pending : list ack;                     (* SubscriptionState.acknowledgements *)
@@ -46,7 +55,7 @@ Definition step (s : st) (o : op) : st :=
   | Start =>
       {| pending := []; inflight := inflight s ++ [pending s];
          sent_ok := sent_ok s; received := received s |}
-  | RespOk k sub seq =>
+  | RespOk k sub seq _ =>
       match inflight s with
       | [] => s
       | _ => let i := pick k (length (inflight s)) in
@@ -72,6 +81,8 @@ Definition step (s : st) (o : op) : st :=
                 inflight := remove_nth i (inflight s);
                 sent_ok := sent_ok s; received := received s |}
       end
+  | StartDown _ => s              (* taken and re-queued within the call *)
+  | SubAdd _ | SubDel _ | SubMod _ | SubPub _ => s
   end.
 
 (* ---- correspondence interface ---------------------------------------------- *)
@@ -151,7 +162,10 @@ Fixpoint oracle_from (avail : list ack) (infl : list (list ack)) (c : case) (out
               | Some rest => oracle_from rest (infl ++ [seen]) c' out'
               | None => false
               end
-          | RespOk k sub seq =>
+          | StartDown _ | SubAdd _ | SubDel _ | SubMod _ | SubPub _ =>
+              (* nothing was received by the server and nothing new by the client: what waits is unchanged *)
+              ms_eqb seen avail && oracle_from avail infl c' out'
+          | RespOk k sub seq _ =>
               match infl with
               | [] => ms_eqb seen avail && oracle_from avail infl c' out'
               | _ => let i := pick k (length infl) in
